@@ -50,6 +50,12 @@ def one_tree(args):
         st = gen(root, xml, o, hs, walk)
         res['runs'] += 1
         if st != 'GENERATED':
+            if name.startswith('random') and vname == VARIANTS[0][0]:
+                # the random tree generator is only approximately valid: a tree the generator rejects is not a C18 input;
+                # the reference elaboration must reject it as well (checked below)
+                res['rejected'] = st
+                shutil.rmtree(base, ignore_errors=True)
+                return res
             res['problems'].append(f"variant {vname}: generator did not succeed: {st}")
             continue
         outs[vname] = read_tree(o)
@@ -141,6 +147,17 @@ def run(tier):
             C.violation(f"tree '{r['name']}': {p}", dict(unit='protocol_code_generator', input=dict(tree=r['name'], xml=tree_xml(t['tree']))), key=key)
         if 'files' in r:
             cases.append((t['tree'], r['files'], r['init_lines']))
+    rejected = [(t, r) for t, r in zip(trees, results) if r.get('rejected')]
+    if rejected:
+        try:
+            fl = run_tree_cases('c18r', [(t['tree'], False, []) for t, r in rejected])
+            for (t, r), f in zip(rejected, fl):
+                if f:
+                    C.violation(f"tree '{r['name']}' is valid for the reference elaboration but the generator fails on it: {r['rejected']}",
+                                dict(unit='protocol_code_generator', input=dict(tree=r['name'], xml=tree_xml(t['tree']))))
+        except CoqCaseError as ex:
+            C.broken.append(dict(kind='correspondence', stream='rejected-trees', msg=str(ex)[-500:]))
+    C.cov['random_trees_rejected_by_generator_and_model'] = [r['name'] for t, r in rejected]
     C.stream('oracle.determinism', runs, runs, sample=dict(tree=trees[0]['name'], variants=[v[0] for v in VARIANTS] + ['same-object-twice', 'same-object-after-failed-run', 'created-reversed', 'second-run-same-dir', 'pre-populated']))
     C.cov['distribution'] = dict(trees=len(trees), generator_runs=runs)
     # ---- correspondence with Model/GenPkg.v: file set and __init__ star-imports
